@@ -33,6 +33,7 @@ THOROUGH = {"batches": 5000, "wall": 900.0}
 valid_case = generic.valid_case
 NONE_CMDS = {"null", "checkpoint", "create", "save", "drop", "sleep", "clear_checkpoint", "monitor", "unmonitor", "unsubscribe", "stop", "pause"}
 STATUS_CMDS = {"set", "trigger", "kickoff", "complete"}
+GROUP_CMDS = STATUS_CMDS | {"stage", "unstage"}  # messages whose status joins the group named in their kwargs
 
 
 def cases(seed, tier):
@@ -117,6 +118,51 @@ def cases(seed, tier):
                 c["devices"][slow]["trigger_delay"] = 0.1
                 c["devices"][slow]["faults"] = {"trigger#0": {"kind": "slow", "delay": 30.0}}
             yield c
+    yield from reused_message_cases(seed, tier, rng, specs)
+
+
+def reused_message_cases(seed, tier, rng, specs):
+    """A plan that keeps its Msg objects and yields them again (a list of messages run twice, caching_repeater, a
+    retry loop): the second pass is answered like the first - in particular every 'wait' is about the statuses
+    of this pass."""
+    from sim.dsl import SiteCounter, msg
+
+    dets = gen.names(specs, "det", "pdet")
+    motors = gen.names(specs, "motor", "pmotor")
+    if not dets:
+        return
+    for j in range(2):
+        S2 = SiteCounter("r")
+        d = dets[0]
+        one = [msg(S2, "stage", d, group="gs"), msg(S2, "wait", None, group="gs"), msg(S2, "checkpoint")]
+        if motors and rng.random() < 0.7:
+            one += [msg(S2, "set", motors[0], 2.0 + j, group="gm")]
+        one += [msg(S2, "trigger", d, group="gt"), msg(S2, "wait", None, group="gt")]
+        if any(n_.get("cmd") == "set" for n_ in one):
+            one += [msg(S2, "wait", None, group="gm")]
+        one += [msg(S2, "unstage", d, group="gu"), msg(S2, "wait", None, group="gu"), msg(S2, "null")]
+        for n_ in one:
+            n_["reuse"] = True
+        c = {
+            "prop": ID,
+            "seed": seed,
+            "variant": f"same-message-objects-yielded-twice-{j}",
+            "sim": {"handle_cost": 0.0},
+            "re": {},
+            "devices": copy.deepcopy(specs),
+            "suspenders": {},
+            "script": [{"do": "call", "plan": [{"op": "repeat", "n": 2, "body": one}], "main": True}],
+        }
+        for d_ in c["devices"].values():
+            d_.pop("faults", None)
+        c["devices"][d]["stage_status"] = True
+        c["devices"][d]["delays"] = {"stage": rng.choice([0.2, 0.5]), "unstage": rng.choice([0.0, 0.3])}
+        c["devices"][d]["trigger_delay"] = 0.3
+        if rng.random() < 0.5:
+            c["script"][0]["inject"] = [{"id": "p0", "at": {"time": rng.choice([0.35, 0.6, 1.2])}, "do": "pause"}]
+            c["script"][0]["decisions"] = [{"do": "resume"}]
+            c["script"][0]["final"] = "resume"
+        yield c
 
 
 def _strip_monitor(body):
@@ -223,7 +269,7 @@ def check(res):
             if g is None or kw.get("timeout") is not None or kw.get("error_on_timeout") is False:
                 continue
             for mid, kw2 in first_kw.items():
-                if cmd_of.get(mid) not in STATUS_CMDS or kw2.get("group") != g:
+                if cmd_of.get(mid) not in GROUP_CMDS or kw2.get("group") != g:
                     continue
                 execs = [(s_, x) for s_, x in ctx.cmd_results.get(mid, []) if s_ < w.seq and isinstance(x, SimStatus)]
                 if not execs:
